@@ -201,10 +201,12 @@ def finish(pid, prop, tier, seed, results, wall):
             print(g, file=sys.stderr)
     for u in undecided[:10]:
         print("UNDECIDED:", u, file=sys.stderr)
-    if guards:
-        return 3
+    # a refuted obligation that is not a listed finding is a violation whatever else went wrong in the run: the VIOLATION line
+    # above names it, so the exit code must say 1 (a canary that can no longer be refuted is typically a consequence of the same change)
     if violations:
         return 1
+    if guards:
+        return 3
     if undecided:
         return 2
     return 0
